@@ -2,6 +2,7 @@ import OsmVerif.Oracle.C10
 import OsmVerif.Oracle.C18
 import OsmVerif.Oracle.C13
 import OsmVerif.Oracle.C15
+import OsmVerif.Oracle.C19
 /-! Line-protocol driver: one case per input line `<Cxx> <op> <payload…>`, one output line each. -/
 open OsmVerif.Oracle
 
@@ -11,6 +12,7 @@ def dispatch (line : String) : String :=
   | "C18" :: rest => C18.handle rest
   | "C13" :: rest => C13.handle rest
   | "C15" :: rest => C15.handle rest
+  | "C19" :: rest => C19.handle rest
   | _ => "bad-op"
 
 partial def loop (h : IO.FS.Stream) (out : IO.FS.Stream) : IO Unit := do
